@@ -239,6 +239,12 @@ def R1_R2_dfs(ctx):
         direct = [x for x in subterms(clean(rt)) if x[0] == "call" and x[1].endswith("CompactOrderedHashMap::<K, V>::keys") and x[2][0] == ("call", "std::slice::<impl [T]>::get", (("field", ("arg", 1), fld_), ("field", ("arg", 2), "0")))]
         other = [x for x in subterms(clean(rt)) if x[0] == "field" and x[1] == ("arg", 1) and x[2] in ("adj", "rev") and x[2] != fld_]
         ok = (contains(rt, lambda s: s == ("call", G + it, (("arg", 1), ("arg", 2)))) or (bool(direct) and not other)) and not [x for x in calls_in(rt) if re.search(r"Iterator>?::(take|skip|filter|step_by|rev)$", x[1])]
+        if not ok and rt[0] == "call" and rt[1] == G + "incident_edges" and rt[2][:2] == (("arg", 1), ("arg", 2)):
+            # delegation the other way round: out_edges(v) = incident_edges(v, Forward), whose Forward case is the collected iterator
+            dvar = "Forward" if fn == "out_edges" else "Reverse"
+            if rt[2][2][0] == "agg" and rt[2][2][2] == dvar:
+                v_ = spec_eval(F, F.need(G + "incident_edges"), {3: dvar})
+                ok = v_ is not None and contains(v_, lambda s: s == ("call", G + it, (("arg", 1), ("arg", 2)))) and not [x for x in calls_in(v_) if re.search(r"Iterator>?::(take|skip|filter|step_by|rev)$", x[1])]
         ctx.check(ok, "Graph::%s" % fn, "Graph::%s is not the collected %s" % (fn, it), b.where(), detail=it)
 
 
